@@ -604,6 +604,9 @@ class Evaluator:
 
     def ev_LetExpr(self, e, env, body, depth):
         v = self.ev(e['init'], env, body, depth)
+        c = self.full_pattern_cond(e['pat'], v)
+        if c is not None:
+            return c
         return ('matches', T.unroot(v), self.patkey(e['pat']))
 
     def ev_Match(self, e, env, body, depth):
@@ -621,7 +624,7 @@ class Evaluator:
                 xu = T.unroot(x)
                 if isinstance(xu, tuple) and xu and xu[0] == 'some':
                     return xu[1]
-                cond = ('matches', xu, 'std::prelude::v1::Some(_)')
+                cond = ('matches', xu, 'Some')
                 self.with_pc([T.tnot(cond)], lambda: self.emit('ret', e, body, value=('none',), joined=False))
                 c2 = T.simplify_under(cond, self.pc)
                 if c2 != T.TRUE:
@@ -645,6 +648,9 @@ class Evaluator:
                 c = T.simplify_under(conds[i], [T.tnot(x) for x in conds[:i]])
                 res = self.join(c, vals[i], res)
             return res
+        dl = self.decision_list(e, scrut, env, body, depth)
+        if dl is not None:
+            return dl
         arms = []
         earlier = []
         n_arms = len(e['arms'])
@@ -674,8 +680,137 @@ class Evaluator:
             return T.root(m)
         return m
 
+    # ---- matches over enums as decision lists ------------------------------------------------------------------
+    def variant_universe(self, variant_path):
+        """names of all variants of the enum a variant path belongs to (crate enums, Option, Result)"""
+        base = variant_path.split('(')[0]
+        if base.endswith('::Some') or base.endswith('::None'):
+            return {'Some', 'None'}
+        if base.endswith('::Ok') or base.endswith('::Err'):
+            return {'Ok', 'Err'}
+        enum_path = base.rsplit('::', 1)[0]
+        adt = self.crate.adts.get(enum_path)
+        if adt and adt.get('kind') == 'Enum':
+            return {v['name'] for v in adt['variants']}
+        return None
+
+    def full_pattern_cond(self, p, scrut):
+        """condition under which pattern p matches the value scrut, over ('matches', x, <variant path>) atoms; None if the
+        pattern is of a kind that is not handled (literals other than bool, ranges, slices, bindings with sub-patterns)"""
+        k = p.get('k')
+        if k in ('Wild',):
+            return T.TRUE
+        if k == 'Bind':
+            return T.TRUE if 'sub' not in p else self.full_pattern_cond(p['sub'], scrut)
+        if k in ('Ref', 'Deref'):
+            return self.full_pattern_cond(p['p'], scrut)
+        if k == 'Lit':
+            return self.bool_pattern(p, scrut)
+        if k == 'Or':
+            cs = [self.full_pattern_cond(q, scrut) for q in p['ps']]
+            return None if any(c is None for c in cs) else T.tor(*cs)
+        if k == 'Tuple':
+            cs = [self.full_pattern_cond(q, T.proj(scrut, i)) for i, q in enumerate(p['ps'])]
+            return None if any(c is None for c in cs) else T.tand(*cs)
+        if k in ('TupleStruct', 'Struct', 'Path'):
+            path = p['path'].get('ctor_of') or p['path'].get('def') or p['path'].get('name')
+            dk = p['path'].get('defkind', '')
+            if not (dk.startswith('Ctor') or dk == 'Variant' or path.split('::')[-1] in ('Some', 'None', 'Ok', 'Err')):
+                return None
+            su = T.unroot(scrut)
+            short = path.split('::')[-1]
+            if short == 'None':
+                base = T.tnot(('matches', su, 'Some'))
+            elif short == 'Err':
+                base = T.tnot(('matches', su, 'Ok'))
+            elif short in ('Some', 'Ok'):
+                base = ('matches', su, short)
+            else:
+                base = ('matches', su, path)
+            subs = []
+            if k == 'TupleStruct':
+                for i, q in enumerate(p['ps']):
+                    v = su[1] if (isinstance(su, tuple) and su and su[0] in ('some', 'ok', 'err') and i == 0) else ('case', su, short, i)
+                    c = self.full_pattern_cond(q, v)
+                    if c is None:
+                        return None
+                    subs.append(c)
+            elif k == 'Struct':
+                for f in p['fields']:
+                    v = ('case', su, short, int(f['name'])) if f['name'].isdigit() else T.fld(scrut, f['name'])
+                    c = self.full_pattern_cond(f['p'], v)
+                    if c is None:
+                        return None
+                    subs.append(c)
+            return T.tand(base, *subs)
+        return None
+
+    def exhaust(self, cond, excluded):
+        """drop `matches(x, V)` conjuncts that are implied because every other variant of V's enum was excluded for x"""
+        def simp(c):
+            if isinstance(c, tuple) and c and c[0] == 'matches':
+                uni = self.variant_universe(c[2]) if '::' in c[2] else ({'Some', 'None'} if c[2] == 'Some' else {'Ok', 'Err'})
+                ex = excluded.get(c[1], set())
+                if uni and (uni - ex) == {c[2].split('::')[-1].split('(')[0]}:
+                    return T.TRUE
+                return c
+            if isinstance(c, tuple) and c and c[0] == 'and':
+                return T.tand(*[simp(x) for x in c[1]])
+            return c
+        return simp(cond)
+
+    def decision_list(self, e, scrut, env, body, depth):
+        arms = e['arms']
+        conds = []
+        for a in arms:
+            c = self.full_pattern_cond(a['pat'], scrut)
+            if c is None:
+                return None
+            conds.append(c)
+        if not arms:
+            return None
+        excluded = {}
+        eff = []
+        vals = []
+        earlier = []
+        n = len(arms)
+        for i, a in enumerate(arms):
+            c = self.exhaust(conds[i], excluded)
+            g = None
+            env_a = dict(env)
+            self.bind(a['pat'], scrut, env_a)
+            if a.get('guard') is not None:
+                g = self.with_pc([T.tnot(x) for x in earlier] + [c], lambda: self.ev(a['guard'], env_a, body, depth))
+                if not T.is_bool(g):
+                    return None
+                c = T.tand(c, g)
+            if i == n - 1 and g is None:
+                c = T.TRUE           # the last arm of an exhaustive match
+            c = T.simplify_under(c, [T.tnot(x) for x in earlier])
+            vals.append(self.with_pc([T.tnot(x) for x in earlier] + [c], lambda: self.ev(a['body'], env_a, body, depth)))
+            eff.append(c)
+            earlier.append(c)
+            # an arm that matches on one scrutinee component alone excludes those variants for later arms
+            if g is None:
+                atoms = conds[i][1] if isinstance(conds[i], tuple) and conds[i] and conds[i][0] == 'or' else (conds[i],)
+                if all(isinstance(x, tuple) and x and x[0] == 'matches' for x in atoms) and len({x[1] for x in atoms}) == 1:
+                    tgt = atoms[0][1]
+                    excluded.setdefault(tgt, set()).update(x[2].split('::')[-1].split('(')[0] for x in atoms)
+                elif isinstance(conds[i], tuple) and conds[i] and conds[i][0] == 'not' and isinstance(conds[i][1], tuple) and conds[i][1][0] == 'matches':
+                    x = conds[i][1]
+                    uni = {'Some', 'None'} if x[2] == 'Some' else ({'Ok', 'Err'} if x[2] == 'Ok' else None)
+                    if uni:
+                        excluded.setdefault(x[1], set()).update(uni - {x[2]})
+        res = vals[-1]
+        for i in range(n - 2, -1, -1):
+            res = self.join(eff[i], vals[i], res)
+        return res
+
     def pattern_cond(self, p, scrut):
         """condition under which an enum pattern matches; Option/Result have one canonical variant each"""
+        fc = self.full_pattern_cond(p, scrut)
+        if fc is not None:
+            return fc
         k = self.patkey(p)
         if k == '_':
             return T.TRUE
